@@ -440,7 +440,8 @@ type runCtx struct {
 	sleeps []time.Duration
 
 	// end-to-end mode: errors are made by the driver from what the scripted node sent
-	errSpec func(error) *outSpec
+	errSpec    func(error) *outSpec
+	viaSession bool
 }
 
 // logNode appends an event observed at a scripted node to the (only) execution's log
@@ -1336,15 +1337,23 @@ func (h *harness) runFree(sc *script, cancelAfter time.Duration) {
 // controlled speculative execution: every scripted attempt blocks until the harness releases it, so
 // the interleaving is the harness's choice and the observed order of steps is a label sequence of
 // the model's transition system.
+// launchFn starts the execution under control: through the shim (nil) or through a real session
+type launchFn func(ctx context.Context, rc *runCtx, sp gocql.SpeculativeExecutionPolicy) gocql.VerifC13Result
+
 func (h *harness) runControlled(sc *script, sched []int, ticks bool, cancelAt int, kind string) {
+	h.runControlledWith(sc, sched, ticks, cancelAt, kind, nil)
+}
+
+func (h *harness) runControlledWith(sc *script, sched []int, ticks bool, cancelAt int, kind string, launch launchFn) {
 	o := h.o
 	rc := newRunCtx(sc, 2)
+	rc.viaSession = launch != nil
 	delay := 500 * time.Microsecond
 	if !ticks {
 		delay = time.Hour
 	}
 	sp := &specPolicy{k: sc.spk, delay: delay}
-	ctx, cancel := context.WithCancel(context.Background())
+	ctx, cancel := context.WithCancel(context.WithValue(context.Background(), ctxKey{}, 1))
 	defer cancel()
 	var res gocql.VerifC13Result
 	var pan interface{}
@@ -1356,7 +1365,11 @@ func (h *harness) runControlled(sc *script, sched []int, ticks bool, cancelAt in
 			rc.cond.Broadcast()
 			rc.mu.Unlock()
 		}()
-		res = gocql.VerifC13Run(rc.shimScript(ctx, sp))
+		if launch != nil {
+			res = launch(ctx, rc, sp)
+		} else {
+			res = gocql.VerifC13Run(rc.shimScript(ctx, sp))
+		}
 	}()
 	stuck := false
 	watchdog := time.AfterFunc(10*time.Second, func() {
@@ -1377,6 +1390,7 @@ func (h *harness) runControlled(sc *script, sched []int, ticks bool, cancelAt in
 	}
 	// phase 2: release one attempt at a time
 	canceled := false
+	lastT := -1 // the execution whose attempt was released last: if the query returns then, it is the first to complete
 	for step := 0; !rc.returned && !stuck; step++ {
 		if step == cancelAt {
 			rc.labels = append(rc.labels, lbl{kind: 2})
@@ -1403,6 +1417,7 @@ func (h *harness) runControlled(sc *script, sched []int, ticks bool, cancelAt in
 			pick = sched[step]
 		}
 		t := bs[pick%len(bs)]
+		lastT = t
 		ch := rc.blocked[t]
 		delete(rc.blocked, t)
 		gen := rc.blockGen[t]
@@ -1426,7 +1441,9 @@ func (h *harness) runControlled(sc *script, sched []int, ticks bool, cancelAt in
 			delete(rc.blocked, t)
 			mg := rc.markGen[t]
 			ch <- release{oc{mkOut(0, 0, 0, 0), true}}
-			for !stuck && rc.markGen[t] == mg {
+			// through a real session the connection has already given the attempt up when the context was
+			// cancelled (its Mark is logged then); through the shim the attempt ends now
+			for !stuck && !rc.viaSession && rc.markGen[t] == mg {
 				rc.cond.Wait()
 			}
 			continue
@@ -1531,6 +1548,13 @@ func (h *harness) runControlled(sc *script, sched []int, ticks bool, cancelAt in
 	}
 	if att != sc.a0+total {
 		o.Violate(idx, "attempt-metrics", "", fmt.Sprintf("q.Attempts() = %d after %d attempts starting from %d", att, total, sc.a0), in)
+	}
+	// every other execution was still waiting for its attempt when the query returned: the result must be
+	// that of the execution whose attempt completed last
+	if !canceled && lastT >= 0 && lastT < len(rc.traces) && view.kind != "ctx" {
+		if exp := expectedResult(sc.pol.kind != 0, rc.traces[lastT]); exp == nil || !sameRes(*exp, view) {
+			o.Violate(idx, "first-to-complete", "", fmt.Sprintf("result %v, but the first execution to complete was %d with %v; logs %v", view, lastT, exp, rc.traces), in)
+		}
 	}
 }
 
@@ -1699,12 +1723,24 @@ func main() {
 	// 7. end to end through the public API: a real Session over scripted in-memory nodes
 	{
 		t0 := time.Now()
-		e, err := newE2E(h)
+		e, err := newE2E(h, 20*time.Second)
 		if err != nil {
 			o.Violate(-1, "e2e-setup", "", fmt.Sprintf("session over scripted nodes could not be opened: %v", err), nil)
 		} else {
 			for i := 0; i < n/2; i++ {
 				e.run(g.e2eScript(), "seq-end-to-end")
+			}
+			// speculative executions through the session on controlled schedules (answers held at the nodes)
+			for i := 0; i < n/4; i++ {
+				sched := make([]int, 12)
+				for j := range sched {
+					sched[j] = r.Intn(6)
+				}
+				cancelAt := -1
+				if r.Chance(15) {
+					cancelAt = r.Intn(4)
+				}
+				e.runControlled(g.controlledE2EScript(), sched, cancelAt, "spec-controlled-end-to-end")
 			}
 			if o.Only < 0 {
 				for i := 0; i < n/5; i++ {
@@ -1724,6 +1760,52 @@ func main() {
 			e.close()
 		}
 		o.Extra["end_to_end_seconds"] = fmt.Sprintf("%.1f", time.Since(t0).Seconds())
+	}
+	// 9. the exponential backoff's nap: the real getExponentialTime against the model's jitter-free bounds
+	{
+		mins := []int64{0, -5, 1, 3, 1000, 1000000, 100000000}
+		maxs := []int64{0, -1, 1, 50, 1000000, 1000000000, 10000000000}
+		as := []int{1, 2, 3, 4, 5, 8, 10, 16, 24, 32, 40, 64}
+		if o.Scale == 1 && !o.Search {
+			mins = []int64{0, 1, 3, 1000000}
+			maxs = []int64{0, 50, 1000000, 10000000000}
+			as = []int{1, 2, 3, 5, 10, 24, 40, 64}
+		}
+		for _, mn := range mins {
+			for _, mx := range maxs {
+				prev := int64(-1)
+				for _, a := range as {
+					obs := int64(gocql.VerifC13ExpTime(time.Duration(mn), time.Duration(mx), a))
+					idx := o.Case("backoff-nap", a > 1, fmt.Sprintf("CNap %s %s %s %s", hlib.Z(mn), hlib.Z(mx), hlib.Z(int64(a)), hlib.Z(obs)))
+					em, ex := mn, mx
+					if em <= 0 {
+						em = 100 * int64(time.Millisecond)
+					}
+					if ex <= 0 {
+						ex = 10 * int64(time.Second)
+					}
+					if obs < 0 || obs > ex {
+						o.Violate(idx, "backoff-range", "", fmt.Sprintf("getExponentialTime(%d, %d, %d) = %d outside [0, max]", mn, mx, a, obs), nil)
+					}
+					// non-decreasing up to the jitter (one min wide)
+					if prev >= 0 && obs+em < prev {
+						o.Violate(idx, "backoff-monotone", "", fmt.Sprintf("getExponentialTime(%d, %d, %d) = %d after %d for fewer attempts", mn, mx, a, obs, prev), nil)
+					}
+					prev = obs
+				}
+			}
+		}
+	}
+	// 8. end-to-end fault scenarios (timeouts, lost connections, hosts without connections, hosts reported down)
+	{
+		nf := 12
+		if o.Scale > 1 {
+			nf = 60
+		}
+		if o.Search {
+			nf = 30
+		}
+		h.runFaults(nf)
 	}
 	o.Extra["note"] = "speculative-free runs are timing dependent in their interleaving but not in their verdicts (monitors hold for every interleaving)"
 	o.Finish("From GocqlV Require Import Lib.Base C13.Model C13.Corr.", "C13.Corr.case", "C13.Corr.run")
